@@ -807,6 +807,12 @@ static int skip_fmt_null(const char** src, const char* fmt)
     return result;
 }
 
+/** Whether a date (YYYY-MM-DD) starts at @p src */
+static int is_date(const char* src)
+{
+    return skip_fmt(&src, "%*4d-%*1d%*1d-%*1d%*1d%n");
+}
+
 /** Helper function for scanf_fmtstr() */
 static const char* try_fmt(const char* src, int exp, const char* fmt,
                            char* typesrc, char type)
@@ -1778,8 +1784,10 @@ size_t rtosc_scan_arg_val(const char* src,
                 *buffer_for_strings = 0;
                 ++buffer_for_strings;
             }
-            // "YYYY-" => it's a date
-            else if(src[0] && src[1] && src[2] && src[3] && src[4] == '-')
+            // "YYYY-MM-DD" => it's a date
+            // (same test as in rtosc_skip_next_printed_arg(): a '-' as
+            //  fifth character alone also occurs in "-11 -1" or "0x1p-6")
+            else if(is_date(src))
             {
                 arg->val.t = 0;
 
